@@ -115,6 +115,9 @@ func TestVerifC23(t *testing.T) {
 			strings.Replace(g, "Tail: num", "Tail num", 1),          // syntax error
 			strings.Replace(g, "num: /[0-9]+/", "num: /[0-9]+\\0a/", 1), // broken regexp
 			g + "Extra: id id2 ;\n",                                 // unresolved
+			g + "{\n  some code\n}\n",                               // syntax error on a token that spans lines
+			g + "%expect\n 3;\n%expect\n    4;\n",                   // duplicate directive written over two lines
+			strings.Replace(g, "language g(go);", "language g(\n go\n);", 1) + "Extra: id id2 ;\n",
 		}
 	}
 	checkDiag := func(ck *vCheck, desc, content string, p *lsp.PublishDiagnosticsParams) {
